@@ -40,7 +40,7 @@ def obs_term(o):
 def main(tier, seed, replay):
     ck = Check("C13", tier, seed)
     ck.coq_theorems()
-    runs = [["-replay", replay]] if replay else [["-seed", str(seed), "-n", "1200" if tier == "quick" else "12000"]]
+    runs = [["-replay", replay]] if replay and "metaconc" not in replay else [["-seed", str(seed), "-n", "1200" if tier == "quick" else "12000"]]
     cases = envcheck.run_harness(ck, "meta", runs)
     if cases is None:
         return ck.finish()
@@ -65,7 +65,21 @@ def main(tier, seed, replay):
     })
     ck.cov["trusted_base"] += ["real DynamoDB / SQL engines are replaced by semantic fakes written from their documentation (the fakes ARE the assumption about those services)",
                                "encoding/json, dynamodbattribute/attributevalue marshalling run for real inside the plugins"]
-    if viol:
+    # concurrency: Store is insert-if-absent as ONE atomic step (controlled schedules of goroutines on the in-memory metastore)
+    cruns = [["-replay", replay]] if replay and "metaconc" in replay else [["-seed", str(seed), "-n", "120" if tier == "quick" else "1500"]]
+    ccases = envcheck.run_harness(ck, "metaconc", cruns) if not (replay and "metaconc" not in replay) else []
+    if ccases is None:
+        return ck.finish()
+    cviol = [c for c in ccases if c.get("viol")]
+    ck.oblige(not cviol, "in-memory metastore: exactly one of several concurrent Stores of one key wins, under %d controlled schedules" % len(ccases),
+              json.dumps(cviol[:1])[:3000])
+    ck.cov["concurrent_store_schedules"] = {"evaluations": len(ccases), "threads": sorted(set(c["threads"] for c in ccases)),
+                                            "distinct_schedules": len(set(json.dumps(c.get("trace")) for c in ccases)),
+                                            "sample_trace": (ccases[0].get("trace") or [])[:12] if ccases else []}
+    if cviol:
+        v = cviol[0]
+        ck.violation(ck.replay_file("metaconc", {"what": v["viol"], "Case": {k: v[k] for k in ("seed", "threads", "keys")}, "schedule": v.get("trace")}))
+    elif viol:
         ck.violation(ck.replay_file("impl", {"what": viol[0]["viol"], "Case": viol[0]}))
     elif bad:
         ck.violation(ck.replay_file("corr", {"what": "implementation answers differ from the key-table specification", "Case": cases[bad[0]]}))
